@@ -159,6 +159,14 @@ def main():
     known = load_known(pid)
     known_hits = {}
 
+    def spec_line(line):
+        return mod.spec_line(line) if hasattr(mod, "spec_line") else line
+
+    def model_request(line, impl):
+        if hasattr(mod, "model_request"):
+            return mod.model_request(line, impl)
+        return mod.KIND + " " + line
+
     def run_one(line, origin):
         try:
             signal.setitimer(signal.ITIMER_REAL, getattr(mod, "CASE_WALL", 30))
@@ -170,11 +178,11 @@ def main():
             impl = "wall-timeout"
         except Exception as e:  # harness-level crash is a disagreement, never silently dropped
             impl = f"harness-exception/{type(e).__name__}/{str(e)[:80].replace(' ', '_')}"
-        model = lean.ask(mod.KIND + " " + line)
+        model = lean.ask(model_request(line, impl))
         stats["evaluations"] += 1
         spec_ok = True
         for sid in mod.SPECS:
-            v = lean.ask(f"spec {sid} {line} || {impl}")
+            v = lean.ask(f"spec {sid} {spec_line(line)} || {impl}")
             stats["spec_on_impl"] += 1
             if v != "1":
                 spec_ok = False
@@ -213,11 +221,11 @@ def main():
             impl = mod.run_impl(line)
         except BaseException as e:
             impl = f"harness-exception/{type(e).__name__}"
-        specs = [lean.ask(f"spec {sid} {line} || {impl}") for sid in mod.SPECS]
+        specs = [lean.ask(f"spec {sid} {spec_line(line)} || {impl}") for sid in mod.SPECS]
         if any(s == "bad-op" for s in specs) and not impl.startswith("harness"):
             return None
         return ("spec" if any(s != "1" for s in specs) else
-                ("corr" if lean.ask(mod.KIND + " " + line) != impl else None))
+                ("corr" if lean.ask(model_request(line, impl)) != impl else None))
 
     if args.replay:
         data = json.load(open(args.replay))
@@ -281,7 +289,7 @@ def main():
         line, impl, model, origin = violations[0]
         small = shrink(line) if lean is not None else line
         impl_s = mod.run_impl(small) if small != line else impl
-        model_s = lean.ask(mod.KIND + " " + small) if small != line else model
+        model_s = lean.ask(model_request(small, impl_s)) if small != line else model
         rp = os.path.join("replays", f"{pid}-{args.seed}-spec.json")
         json.dump({"property": pid, "kind": "spec-violated-on-implementation", "case": small, "original_case": line,
                    "origin": origin, "impl_obs": impl_s, "model_obs": model_s,
@@ -299,7 +307,7 @@ def main():
             small = shrink(line)
             rec.update({"broken_correspondence": f"model {mod.KIND} vs implementation",
                         "case": small, "original_case": line, "origin": origin,
-                        "impl_obs": mod.run_impl(small), "model_obs": lean.ask(mod.KIND + " " + small),
+                        "impl_obs": mod.run_impl(small), "model_obs": lean.ask(model_request(small, mod.run_impl(small))),
                         "n_disagreements": len(disagreements)})
         if lean is None or params is None:
             rec["broken_correspondence"] = "harness could not start (driver or parameter extraction failed)"
